@@ -29,6 +29,10 @@ type C15Case struct {
 	Cache   int          `json:"cache"`           // key cache capacity, -1 = off
 	GCAt    []int        `json:"gc_at,omitempty"` // global event indices at which a GC is forced
 	Go      *GoCase      `json:"go,omitempty"`    // fold mode
+	// Finish: how the last chunk of every document reaches the push parser:
+	// "" = Write, "parse" = Parser.Parse(chunk) from a scratch buffer that is
+	// overwritten afterwards, "parsestring" = Parser.ParseString(string(chunk))
+	Finish string `json:"finish,omitempty"`
 }
 
 func newGCVisitor(v structform.Visitor, at []int) structform.Visitor {
@@ -270,7 +274,7 @@ func checkC15(ci any, info *CaseInfo) string {
 			if c.Decoder {
 				return dec.Next()
 			}
-			return scribbleFeed(p, d, cuts)
+			return scribbleFeedFinish(p, d, cuts, c.Finish)
 		})
 		// control: plain one-shot parse into a fresh unfolder from an untouched buffer
 		control := reflect.New(typ)
@@ -340,6 +344,11 @@ func drawC15(t *rapid.T) any {
 		c.Cuts = append(c.Cuts, cuts)
 	}
 	c.Decoder = rapid.IntRange(0, 3).Draw(t, "decoder") == 3
+	if !c.Decoder && c.Format != "json" {
+		// (json's Parser.Parse starts a new document; the binary parsers' Parse
+		// continues what Write began and signals the end of the input)
+		c.Finish = rapid.SampledFrom([]string{"", "", "parse", "parsestring"}).Draw(t, "finish")
+	}
 	if c.Decoder {
 		c.BufSize = rapid.SampledFrom([]int{1, 2, 5, 16, 64, 256}).Draw(t, "bufsize")
 	}
@@ -358,7 +367,7 @@ func drawC15(t *rapid.T) any {
 func init() {
 	register(&Property{
 		ID:    "C15",
-		Rule:  "histories of 1..4 string-heavy documents (strings/keys with lengths straddling the parsers' 64-byte scratch buffers, escapes, multi-byte runes) encoded with the library encoders and pushed through ONE parser (Write from a scratch buffer that is overwritten right after each Write, generated chunkings) or ONE pull decoder (reader schedules, buffer sizes 1..256) into ONE unfolder (SetTarget per document; with/without key cache) with targets interface{}, map[string]string, []string and a reflect-built struct with string, []string, map[string]string, interface{} and map[string]struct fields, optionally with forced GCs at drawn event boundaries; oracle = each result equals a control run (one-shot Parse of an untouched copy into a fresh unfolder) and still equals its snapshot after all later documents, buffer overwrites and two forced GCs; fold mode: Fold -> encoder output is the same with GCs forced at drawn events. non-trivial = a chunk boundary inside a document, or more than one document through the same parser/unfolder; distinct by case hash. The thorough tier repeats the search with the -race build (checkptr instrumentation of unsafe conversions)",
+		Rule:  "histories of 1..4 string-heavy documents (strings/keys with lengths straddling the parsers' 64-byte scratch buffers, escapes, multi-byte runes) encoded with the library encoders and pushed through ONE parser (Write from a scratch buffer that is overwritten right after each Write, generated chunkings; the last chunk of a cborl/ubjson document by Write, Parse or ParseString) or ONE pull decoder (reader schedules, buffer sizes 1..256) into ONE unfolder (SetTarget per document; with/without key cache) with targets interface{}, map[string]string, []string and a reflect-built struct with string, []string, map[string]string, interface{} and map[string]struct fields, optionally with forced GCs at drawn event boundaries; oracle = each result equals a control run (one-shot Parse of an untouched copy into a fresh unfolder) and still equals its snapshot after all later documents, buffer overwrites and two forced GCs; fold mode: Fold -> encoder output is the same with GCs forced at drawn events. non-trivial = a chunk boundary inside a document, or more than one document through the same parser/unfolder; distinct by case hash. The thorough tier repeats the search with the -race build (checkptr instrumentation of unsafe conversions)",
 		New:   func() any { return &C15Case{} },
 		Draw:  drawC15,
 		Check: checkC15,
